@@ -88,12 +88,19 @@ func genC06(t *rapid.T) c06Case {
 	}
 	u := func(label string) float64 { return float64(rapid.Uint64Range(0, 1<<53-1).Draw(t, label)) / (1 << 53) }
 	var x float64
-	kind := rapid.SampledFrom([]string{"near-a", "near-1", "bulk", "wide", "low", "zero", "negative", "cutoff", "tiny"}).Draw(t, "xkind")
+	kind := rapid.SampledFrom([]string{"near-a", "near-1", "bulk", "wide", "low", "zero", "negative", "cutoff", "tiny", "just-below-a", "just-below-a", "just-above-a"}).Draw(t, "xkind")
 	switch kind {
 	case "near-a":
 		x = a * (1 + delta())
 	case "near-1":
 		x = 1 + delta()
+	case "just-below-a": // where the power series needs the most terms (~8.5 sqrt(a))
+		x = a - u("jb")*math.Sqrt(a)
+		if x <= 0 {
+			x = a / 2
+		}
+	case "just-above-a": // where the continued fraction needs the most iterations
+		x = a + u("ja")*math.Sqrt(a)
 	case "bulk":
 		x = a + (u("z")*20-8)*math.Sqrt(a)
 	case "wide":
